@@ -335,14 +335,14 @@ Proof.
 Qed.
 
 Lemma push_record nm fs :
-  nm <> Some [] -> keys_nodup (map fst fs) = true -> Forall (fun kv : name * pyval => pushes (snd kv)) fs ->
+  keys_nodup (map fst fs) = true -> Forall (fun kv : name * pyval => pushes (snd kv)) fs ->
   pushes (PRec nm fs).
 Proof.
-  intros Hnm Hnd F. apply (push_struct (PRec nm fs) (CBeginRecord nm) (enc_rec fs) CEndRecord);
-    [apply encode_rec|exact Hnm|reflexivity|reflexivity|].
+  intros Hnd F. apply (push_struct (PRec nm fs) (CBeginRecord nm) (enc_rec fs) CEndRecord);
+    [apply encode_rec|exact I|reflexivity|reflexivity|].
   intros K' Nc h0 FK R T Kn.
   destruct Nc as [| | | | | | |cs keys rn nullp len bg ni0 ntt0| |]; try discriminate Kn.
-  apply rep_record in R. destruct R as (-> & -> & H1 & H2 & Fr & Ek & Rc).
+  apply rep_record in R. destruct R as (-> & -> & Fr & Ek & Rc).
   cbn [bkind bckind] in Kn. injection Kn as Kn.
   cbn [opened]. pose proof (zlen_nonneg h0) as Hl.
   assert (rst h0 [] cs keys) as Rs0.
@@ -362,7 +362,7 @@ Proof.
   - cbn [blen]. now rewrite (nonneg_neq_m1 _ Hl).
   - now apply record_end.
   - apply rep_record.
-    refine (conj eq_refl (conj (eq_sym (zlen_snoc _ _)) (conj H1 (conj H2 (conj _ (conj _ _)))))).
+    refine (conj eq_refl (conj (eq_sym (zlen_snoc _ _)) (conj _ (conj _ _)))).
     + rewrite forallb_snoc, Fr. cbn [isrec andb]. rewrite Hnd, andb_true_r. apply oname_eqb_eq. now symmetry.
     + rewrite keys_of_snoc. cbn [rkeys]. now rewrite <- Ek.
     + apply F2_rcols. unfold hs in Ff. apply F2_map_r_inv in Ff. eapply F2_impl_in; [exact Ff|].
@@ -376,7 +376,7 @@ Proof.
 Qed.
 
 (* ------------------------------------------------------------------ every value of the fragment *)
-Lemma push_all v : pyok v = true -> pushes v.
+Lemma push_all v : pywf v = true -> pushes v.
 Proof.
   induction v as [| | | | |l IH|l IH|nm fs IH] using pyval_indx; intro Hok.
   - apply (push_atom PNone CNull); reflexivity.
@@ -384,17 +384,15 @@ Proof.
   - apply (push_atom (PInt z) (CInt z)); reflexivity.
   - apply (push_atom (PFloat z) (CReal z)); reflexivity.
   - apply (push_atom (PStr e s) (CStr e s)); reflexivity.
-  - apply push_list. cbn [pyok] in Hok. rewrite forallb_forall in Hok. rewrite Forall_forall in *. auto.
-  - apply push_tuple. cbn [pyok] in Hok. rewrite forallb_forall in Hok. rewrite Forall_forall in *. auto.
-  - cbn [pyok] in Hok. apply andb_true_iff in Hok. destruct Hok as [Hok H3]. apply andb_true_iff in Hok.
-    destruct Hok as [H1 H2]. apply push_record; [|exact H2|].
-    + intros ->. discriminate H1.
-    + clear H1 H2. induction fs as [|[k x] t IHt]; [constructor|]. apply andb_true_iff in H3. destruct H3 as [Hx Ht].
+  - apply push_list. cbn [pywf] in Hok. rewrite forallb_forall in Hok. rewrite Forall_forall in *. auto.
+  - apply push_tuple. cbn [pywf] in Hok. rewrite forallb_forall in Hok. rewrite Forall_forall in *. auto.
+  - cbn [pywf] in Hok. apply andb_true_iff in Hok. destruct Hok as [H2 H3]. apply push_record; [exact H2|].
+    clear H2. induction fs as [|[k x] t IHt]; [constructor|]. apply andb_true_iff in H3. destruct H3 as [Hx Ht].
       inversion IH; subst. constructor; [cbn [snd] in *; auto|auto].
 Qed.
 
 Theorem feed_values_x vs :
-  forallb pyok vs = true -> exists b, run o ab_init (encode_all vs) = Ok b /\ rep b vs.
+  forallb pywf vs = true -> exists b, run o ab_init (encode_all vs) = Ok b /\ rep b vs.
 Proof.
   intro Hok.
   assert (Forall pushes vs) as F.
